@@ -245,6 +245,13 @@ Theorem C03_rule_unwritable_result_500 : forall f k hs,
 Proof. exact rule_unwritable_result_lemma. Qed.
 Print Assumptions C03_rule_unwritable_result_500.
 
+Theorem C03_rule_encoder_panic_500 : forall f k c,
+  normal_env f -> reaches_post_body f k -> passes (f_verdict f SPostReadCallBody) ->
+  f_handler f = HEncodePanic c ->
+  dispatch_now f = [Invoke k; Reply (f_seq f) (Some (st_internal c))].
+Proof. exact rule_encode_panic_lemma. Qed.
+Print Assumptions C03_rule_encoder_panic_500.
+
 Theorem C03_rule_plugin_panic_on_handler_goroutine_500 : forall f k c,
   normal_env f -> reaches_post_body f k -> f_verdict f SPostReadCallBody = VPanic c ->
   dispatch_now f = [Reply (f_seq f) (Some (st_internal c))].
